@@ -19,7 +19,7 @@ func retryStageRule(o *Ob) {
 	// --- prologue
 	o.Table(fn, "prologue", []Row{
 		{Name: "send_resolved off, nothing firing", Assume: A(SR.Neg(), hasF, noF), Ret: [][]string{nil, Vals("p2"), Vals("nil")}, Never: []func(ssa.Instruction) bool{IsInstr(nt)}},
-		{Name: "send_resolved off, firing hashes missing", Assume: A(SR.Neg(), hasF.Neg()), Ret: [][]string{nil, Vals("nil"), Vals("~errors\\.New\\(.*")}, Never: []func(ssa.Instruction) bool{IsInstr(nt)}},
+		{Name: "send_resolved off, firing hashes missing", Assume: A(SR.Neg(), hasF.Neg()), Ret: [][]string{nil, Vals("nil"), Vals(anyErr)}, Never: []func(ssa.Instruction) bool{IsInstr(nt)}},
 	})
 	// --- what is sent
 	sentArg := nt.Common().Args[len(nt.Common().Args)-1]
